@@ -45,6 +45,7 @@ def _build(shape, items):
                         s2=Text(3, min=1), shape=Int(0, 5)),
             tags={2: 'hit, unique leftmost', 3: 'miss', 4: 'tie at the same start: first listed wins'},
             timeout=400, split=('shape',),
+            thorough=dict(params=dict(win=Text(8), fresh=Int(0, 9), W=OptInt(1, 9)), timeout=3000, split=('shape', 'W')),
             note='searcher_string.search: index is the list position, occurrence genuine, leftmost in the searched '
                  'region, first listed on ties')
 def M1_exact_select(win, fresh, W, s0, s1, s2, shape):
